@@ -83,6 +83,7 @@ type G struct {
 	noIn       bool
 	labels     []string
 	forcePlain bool // the next function is neither async nor a generator
+	wantLex    bool // the next statement is the first of a loop or conditional body block
 	forceGen   bool // the next method is a plain generator method (no static, async, get, set)
 	nameSeq    int
 	Declared   []string // names declared so far (unique, so that no redeclaration error can arise)
@@ -1148,7 +1149,15 @@ func (g *G) Stmt() Out {
 	g.depth++
 	defer func() { g.depth-- }()
 	if g.depth <= g.MaxDepth {
-		switch g.intn("declkind", 12) {
+		kind := g.intn("declkind", 12)
+		if g.wantLex {
+			// the first statement of a block that is the body of a loop or conditional: a lexical declaration half of the time
+			g.wantLex = false
+			if g.chance("bodylex", 2) {
+				kind = 0
+			}
+		}
+		switch kind {
 		case 0:
 			g.Kinds["let"]++
 			if k := len(g.lexScopes); k > 0 {
@@ -1162,8 +1171,17 @@ func (g *G) Stmt() Out {
 					}
 					n = g.retired[i]
 					g.retired = append(g.retired[:i:i], g.retired[i+1:]...)
-					g.Reused++
-					g.Kinds["let-reused-name"]++
+					for _, y := range g.lexScopes[k-1] {
+						if y == n {
+							n = "" // this scope declares the name itself (the retired one had shadowed it)
+						}
+					}
+					if n != "" {
+						g.Reused++
+						g.Kinds["let-reused-name"]++
+					} else if g.chance("plainlet", 2) {
+						n = g.newName()
+					}
 				} else if k >= 2 && g.chance("shadow", 3) {
 					// a name that a let/const of an enclosing, still open scope declares: the inner declaration shadows it
 					var outer []string
@@ -1215,7 +1233,10 @@ func (g *G) SubStmt() Out {
 	if g.depth <= g.MaxDepth && g.chance("blockbody", 3) {
 		// the usual body of a loop or conditional: a block (a scope of its own)
 		g.Kinds["block-body"]++
-		return g.block()
+		g.wantLex = true
+		b := g.block()
+		g.wantLex = false
+		return b
 	}
 	return g.subStmt()
 }
@@ -1582,6 +1603,9 @@ func (g *G) Program() Out {
 	n := 1 + g.intn("nstmts", 4)
 	var toks []Tok
 	var strs []string
+	// the top level is a scope like any other: its let/const names can be shadowed further in and re-use retired names
+	g.lexScopes = append(g.lexScopes, nil)
+	defer func() { g.lexScopes = g.lexScopes[:len(g.lexScopes)-1] }()
 	for i := 0; i < n; i++ {
 		var s Out
 		if g.Module {
